@@ -214,18 +214,27 @@ def _names(lst, prog=None):
     out = []
     for x in lst:
         st = style_of(prog, x) if prog is not None and x.isidentifier() else "name"
-        if st == "decorator":
+        if st in ("decorator", "devent"):
             continue
         out.append(x if st == "callable" else repr(x))
     return "[" + ", ".join(out) + "]"
 
 
-def render_transition(prog, t, assign=None):
+def transition_expr(t, kw):
+    src, dst = t["src"], t["dst"]
+    if t.get("decl") == "from":
+        return f"{dst}.from_({src}, {', '.join(kw)})"
+    if t.get("decl") == "itself" and src == dst:
+        return f"{src}.to.itself({', '.join(kw)})"
+    return f"{src}.to({dst}, {', '.join(kw)})"
+
+
+def render_transition(prog, t, assign=None, expr_only=False):
     src, dst = t["src"], t["dst"]
     kw = []
     names = prog.get("event_names") or {}
     decl = prog.get("event_decl") or []
-    if not assign:
+    if not assign and not expr_only:
         if any(e in decl for e in t["events"]):
             # events declared as stand-alone ``Event()`` attributes are passed as objects
             parts = [e if e in decl else (f"Event({e!r}, name={names[e]!r})" if e in names else repr(e))
@@ -242,7 +251,9 @@ def render_transition(prog, t, assign=None):
     for g in GROUPS:
         if t.get(g) and _names(t[g], prog) != "[]":
             kw.append(f"{g}={_names(t[g], prog)}")
-    call = f"{src}.to({dst}, {', '.join(kw)})"
+    call = transition_expr(t, kw)
+    if expr_only:
+        return call
     if assign and t.get("assign_event"):
         # declared through an explicit Event object: ``ev = Event(a.to(b), name="Label")``
         label = names.get(assign)
@@ -280,6 +291,7 @@ def render_machine(prog, base_name=None):
             kw.append(f"exit={_names(s['exit'], prog)}")
         lines.append(f"    {s['id']} = State({', '.join(kw)})")
     body = []
+    done_groups = set()
     for e in prog.get("event_decl") or []:
         label = (prog.get("event_names") or {}).get(e)
         body.append(f"    {e} = Event(" + (f"name={label!r}" if label else "") + ")\n")
@@ -296,6 +308,16 @@ def render_machine(prog, base_name=None):
             if t["dst"] in [s["id"] for s in prog["states"] if s.get("inherited")]:
                 line = line.replace(f".to({t['dst']},", f".to({base_name}.{t['dst']},", 1)
             body.append(line)
+        elif t.get("orgroup"):
+            if t["orgroup"] in done_groups:
+                continue
+            done_groups.add(t["orgroup"])
+            members = [x for x in prog["trans"] if x.get("orgroup") == t["orgroup"]]
+            body.append(f"    {t['orgroup']} = " + " | ".join(render_transition(prog, x, expr_only=True) for x in members)
+                        + "\n")
+        elif t.get("devent") and f"machine.{t['events'][0]}" in prog["cbs"]:
+            body.append("    @" + render_transition(prog, t, expr_only=True) + "\n"
+                        + render_cb(prog, f"machine.{t['events'][0]}"))
         else:
             line = render_transition(prog, t, assign=t.get("assign"))
             inh = [s["id"] for s in prog["states"] if s.get("inherited")]
